@@ -279,3 +279,20 @@ Example C17_ntimed_close_example :
               sm_stx := 1700000000013000000; sm_crx := 1700000000060000000 |} in
   Z.abs (lo_ns s) < 2^62 /\ Z.abs (hi_ns s) < 2^62 /\ raw_close s (raw_f s) = true /\ raw_offset s = -17000000 /\ raw_f s = -17000000.
 Proof. vm_compute. repeat split; reflexivity. Qed.
+
+(* ================= service wiring: one filter per client ================= *)
+
+(* The clauses above speak about one filter instance and its own sample stream.  createClocks (observed through
+   the wiring hook, case kind svc.filters) must give every client a *client.NtimedFilter of its own: the oracle
+   C17_filters_ok accepts the expected observation for every configuration ... *)
+Theorem C17_filters_expected : forall kinds npeer,
+  let '(counts, types, ids) := svc_expected kinds npeer in
+  C17_filters_ok kinds npeer true counts types ids = true.
+Proof. exact filters_expected_ok. Qed.
+Print Assumptions C17_filters_expected.
+
+(* ... and rejects every observation in which two clients hold the same filter *)
+Theorem C17_filters_shared_rejected : forall kinds npeer counts types pre x mid post,
+  C17_filters_ok kinds npeer true counts types (pre ++ x :: mid ++ x :: post) = false.
+Proof. exact filters_shared_rejected. Qed.
+Print Assumptions C17_filters_shared_rejected.
